@@ -44,6 +44,18 @@ func vGenTree(r *rand.Rand, exact bool) []vTreeFile {
 			t = strings.ReplaceAll(t, "\n", "\r\n")
 		case 2: // BOM, tabs, trailing blanks, invalid bytes
 			t = "\xef\xbb\xbf" + strings.ReplaceAll(t, "\n", " \t\n") + "\xff\xfe tail\xe2\x80"
+		case 3: // NUL bytes (a C-string terminator, or a UTF-16 file)
+			if r.Intn(2) == 0 {
+				t = t + "\x00"
+			} else {
+				var sb strings.Builder
+				sb.WriteString("\xff\xfe")
+				for i := 0; i < len(t); i++ {
+					sb.WriteByte(t[i])
+					sb.WriteByte(0)
+				}
+				t = sb.String()
+			}
 		}
 		return t
 	}
@@ -166,7 +178,7 @@ func TestVerifC12(t *testing.T) {
 	defer os.RemoveAll(base)
 
 	ntrees := e.pick(40, 1000)
-	spellings := []string{"abs", "rel", "./rel", "rel/", "./rel/", "rel//", ".", "../parent/rel", "symlink", "abs/", "rel/."}
+	spellings := []string{"abs", "rel", "./rel", "rel/", "./rel/", "rel//", ".", "../parent/rel", "symlink", "abs/", "rel/.", "missing", "empty-string", "below-a-file"}
 	idx := 0
 	for ti := 0; ti < ntrees; ti++ {
 		ti := ti
@@ -219,6 +231,12 @@ func TestVerifC12(t *testing.T) {
 				case "symlink":
 					os.Symlink(root, filepath.Join(parent, "lnk"))
 					dir = "lnk/" // a symlink to a directory is only walked when spelled with a trailing separator
+				case "missing":
+					dir = filepath.Join(root, "no", "such", "directory")
+				case "empty-string":
+					dir = ""
+				case "below-a-file":
+					dir = filepath.Join(root, filepath.FromSlash(files[0].rel), "below")
 				}
 				var listing []string
 				for _, f := range files {
@@ -232,6 +250,16 @@ func TestVerifC12(t *testing.T) {
 				err := loaded.LoadLicenses(dir) // a panic is caught by the case runner
 				os.Chdir(origWD)
 				e.count("loadlicenses_calls", 1)
+				if sp == "missing" || sp == "empty-string" || sp == "below-a-file" {
+					// nothing can be walked: no panic (caught by the runner), nothing loaded; an
+					// error return is acceptable
+					if len(loaded.docs) != 0 {
+						cs.violation("loaded-from-nowhere", "dir=%q does not name a directory but %d documents were loaded", dir, len(loaded.docs))
+						return
+					}
+					cs.nontrivial(gen, ti)
+					return
+				}
 				// expected: *txt files at depth exactly 3
 				built := NewClassifier(thr)
 				expect := map[string]bool{}
